@@ -47,6 +47,16 @@ type Solver struct {
 	lastOneShot bool
 	OneShots    int
 	TmpDir      string
+
+	// cross-solver validation: every XEvery-th decided query is re-decided by the other
+	// solvers in XSolvers (each an argv taking a file name last); sat-vs-unsat is a disagreement.
+	XEvery    int
+	XSolvers  [][]string
+	XChecked  int
+	XAgree    int
+	XUnknown  int
+	XDisagree []string
+	xcount    int
 }
 
 // New starts a solver. argv e.g. {"z3","-in","-t:10000"}.
@@ -196,6 +206,59 @@ func (s *Solver) readLine() (string, error) {
 
 // Check runs (check-sat) under the current assertions.
 func (s *Solver) Check() Result {
+	r := s.check()
+	if s.XEvery > 0 && r != Unknown {
+		s.xcount++
+		if s.xcount == 5 || s.xcount == 50 || s.xcount%s.XEvery == 0 {
+			s.crossCheck(r)
+		}
+	}
+	return r
+}
+
+// crossCheck re-decides the current assertion stack with the other solvers.
+func (s *Solver) crossCheck(r Result) {
+	dir := s.TmpDir
+	if dir == "" {
+		dir = os.TempDir()
+	}
+	f, err := os.CreateTemp(dir, "gosym-x-*.smt2")
+	if err != nil {
+		return
+	}
+	w := bufio.NewWriter(f)
+	w.WriteString("(set-logic ALL)\n")
+	for _, lv := range s.lines {
+		for _, l := range lv {
+			w.WriteString(l)
+			w.WriteByte('\n')
+		}
+	}
+	w.WriteString("(check-sat)\n")
+	w.Flush()
+	f.Close()
+	keep := false
+	for _, argv := range s.XSolvers {
+		out, _ := exec.Command(argv[0], append(append([]string{}, argv[1:]...), f.Name())...).Output()
+		first, _, _ := strings.Cut(strings.TrimSpace(string(out)), "\n")
+		first = strings.TrimSpace(first)
+		s.XChecked++
+		switch {
+		case first == r.String():
+			s.XAgree++
+		case first == "sat" || first == "unsat":
+			keep = true
+			s.XDisagree = append(s.XDisagree, fmt.Sprintf("%s says %s, %s says %s: %s", s.argv[0], r, argv[0], first, f.Name()))
+		default:
+			s.XUnknown++
+		}
+	}
+	if !keep {
+		os.Remove(f.Name())
+	}
+}
+
+func (s *Solver) check() Result {
 	if s.OneShotMin > 0 && s.nlines >= s.OneShotMin {
 		s.lastOneShot = true
 		r, _ := s.oneShot("")
